@@ -164,7 +164,7 @@ def _ints_to_rope(I, items):
         else:
             if I.branch(simp(z3.Or(Z(x) < 0, Z(x) > 255))):
                 I.raise_("ValueError")
-            segs.append(R.IntSeg(x, 1, "little"))
+            segs.append(R.IntSeg(x, 1, "little", True))
     return R.Rope(segs)
 
 
@@ -424,7 +424,9 @@ def int_to_bytes(I, x, args, kw):
             I.raise_("OverflowError")
         if n == 0:
             return SBytes(R.Rope())
-        return SBytes(R.Rope([R.IntSeg(x, n, order)]))
+        if signed:
+            x = simp(z3.If(Z(x) < 0, Z(x) + 256**n, Z(x)))
+        return SBytes(R.Rope([R.IntSeg(x, n, order, True)]))  # in range on this (non-raising) path
     # symbolic width (FFC DH / ECDH fixed-width fields)
     if signed:
         raise OutOfReach("signed to_bytes of symbolic width")
